@@ -358,6 +358,32 @@ theorem transparent_shape {ρ γ : Type} (c : Codec (List ρ) γ) (hc : c.Lossle
     ((chunks.map c.enc).map c.dec).flatten.length = chunks.flatten.length := by
   rw [map_dec_enc c hc chunks]
 
+/-- Same shape under a possibly INCONSISTENT metadata file: whatever sample count `x.meta` announces (more or fewer
+samples than are on disk), the reader of `x.cbin` and the reader of `x.bin` expose the same sample count — the number
+of complete frames on disk (`frame` bytes per sample, `extra < frame` trailing bytes of an incomplete frame in
+`x.bin`): the `.ch` sample count for the compressed file, C11's floor rule for the binary. -/
+theorem transparent_shape_any_meta {ρ γ : Type} (c : Codec (List ρ) γ) (hc : c.Lossless) (chunks : List (List ρ))
+    (metaNs frame extra : Nat) (hextra : extra < frame) :
+    openNsCbin metaNs ((chunks.map c.enc).map c.dec).flatten.length = chunks.flatten.length ∧
+    openNsBin metaNs frame (chunks.flatten.length * frame + extra) = chunks.flatten.length := by
+  rw [map_dec_enc c hc chunks]
+  have hf : 0 < frame := by omega
+  have hdiv : (chunks.flatten.length * frame + extra) / frame = chunks.flatten.length := by
+    rw [Nat.mul_comm, Nat.mul_add_div hf, Nat.div_eq_of_lt hextra, Nat.add_zero]
+  refine ⟨by unfold openNsCbin; split <;> simp_all, ?_⟩
+  unfold openNsBin
+  split
+  · exact hdiv
+  · rename_i h
+    have h' : metaNs * frame = chunks.flatten.length * frame + extra := by simpa using h
+    have := congrArg (· / frame) h'
+    simp only [Nat.mul_div_cancel _ hf, hdiv] at this
+    exact this
+
+/-- Non-vacuity: a 7-sample recording whose metadata announces 9 (and 5) samples. -/
+example : openNsCbin 9 7 = 7 ∧ openNsBin 9 6 42 = 7 ∧ openNsCbin 5 7 = 7 ∧ openNsBin 5 6 (42 + 3) = 7 ∧ openNsBin 7 6 42 = 7 := by
+  decide
+
 /-- F17 (known finding `cbin_negative_step_sample_slice`): with a negative step the compressed backend returns
 no rows at all, for every recording and every start/stop … -/
 theorem negative_step_empty_on_cbin {ρ : Type} (chunks : List (List ρ)) (start stop : Option Int) (step : Int)
